@@ -432,6 +432,8 @@ var c13Ops = []c13Op{
 	{name: "AddStyle(X,paragraph,bold)", kind: "addstyle", id: "X"},
 	{name: "AddParagraph.SetStyle(X)", kind: "setstyle", id: "X"},
 	{name: "RemoveStyle(X)", kind: "remove", id: "X"},
+	{name: "GetStyle(X) edited in place (bold toggled, basedOn Normal<->Heading1, renamed)", kind: "editstyle", id: "X"},
+	{name: "GetStyle(Heading1) edited in place (bold toggled, renamed)", kind: "editstyle", id: "Heading1"},
 	{name: "CreateQuickStyle(T,table)", kind: "quick", id: "T"},
 	{name: "AddTable.ApplyTableStyle(StyleID=T)", kind: "tblstyleid", id: "T"},
 	{name: "AddTable.ApplyTableStyle(StyleID=ab)", kind: "tblstyleid", id: "ab"},
@@ -519,6 +521,12 @@ func (i *c13Inst) Enabled(op int) bool {
 		return i.doc.GetStyleManager().StyleExists(o.id) && i.uses[o.id] == 0
 	case "quick":
 		return !i.doc.GetStyleManager().StyleExists(o.id)
+	case "editstyle":
+		// a style the registry has: the custom one once the style API put it there, the predefined one always
+		if _, custom := c13StyleType[o.id]; custom {
+			return i.api[o.id] && i.regHas(o.id, style.StyleTypeParagraph)
+		}
+		return i.regHas(o.id, style.StyleTypeParagraph)
 	}
 	return true
 }
@@ -620,6 +628,36 @@ func (i *c13Inst) Apply(op int) (string, []rep.Violation) {
 			if err != nil {
 				outcome = "error"
 				return
+			}
+			i.api[o.id] = true
+			i.lastNT = true
+		case "editstyle":
+			st := i.doc.GetStyleManager().GetStyle(o.id)
+			if st == nil {
+				outcome = "error"
+				return
+			}
+			if st.RunPr == nil {
+				st.RunPr = &style.RunProperties{}
+			}
+			if st.RunPr.Bold != nil {
+				st.RunPr.Bold = nil
+			} else {
+				st.RunPr.Bold = &style.Bold{}
+			}
+			if _, custom := c13StyleType[o.id]; custom {
+				if st.BasedOn != nil && st.BasedOn.Val == "Heading1" {
+					st.BasedOn = &style.BasedOn{Val: "Normal"}
+				} else {
+					st.BasedOn = &style.BasedOn{Val: "Heading1"}
+				}
+			}
+			if st.Name != nil && strings.HasSuffix(st.Name.Val, " (edited)") {
+				st.Name = &style.StyleName{Val: strings.TrimSuffix(st.Name.Val, " (edited)")}
+			} else if st.Name != nil {
+				st.Name = &style.StyleName{Val: st.Name.Val + " (edited)"}
+			} else {
+				st.Name = &style.StyleName{Val: o.id + " (edited)"}
 			}
 			i.api[o.id] = true
 			i.lastNT = true
@@ -780,7 +818,7 @@ func runC13(r *rep.Run) {
 	if r.Tier == "thorough" {
 		depth = 4
 	}
-	r.Rule = "BFS over histories (one seed, then up to <depth_after_seed> operations) of styled-content, style-API, table-style, list, note, TOC, ToBytes and reopen operations on a real Document; seeds: New(), a Markdown-converted document, an opened package written by this library (custom style in use, two lists, two footnotes, two endnotes), two opened foreign packages with their own styles (one also with numbering, a footnote reference and a header). Every ToBytes/reopen inside a history and one more save at every distinct state is read with the independent reader and judged: each w:pStyle/w:rStyle/w:tblStyle value in the main, header, footer and notes parts is a w:styleId of the matching w:type in the styles part; each non-zero w:numId has a w:num whose w:abstractNumId has a w:abstractNum; each w:footnoteReference/w:endnoteReference id and each note marker the library writes ('[n]' / '[尾注n]') is a note id of the notes part; each custom style put into the current Document's registry through CreateCustomStyle/AddStyle/CreateQuickStyle (and not removed) is in the saved styles part with the registry's type, name, basedOn and bold. Caller-invented ids are excluded: SetStyle/ApplyTableStyle(StyleID) only get ids of the right type that are in the registry at call time, RemoveStyle only removes a style no element made by the harness uses. non-trivial = an operation that added a reference or a definition, saved or reopened (errors are not)"
+	r.Rule = "BFS over histories (one seed, then up to <depth_after_seed> operations) of styled-content, style-API, table-style, list, note, TOC, ToBytes and reopen operations on a real Document; seeds: New(), a Markdown-converted document, an opened package written by this library (custom style in use, two lists, two footnotes, two endnotes), two opened foreign packages with their own styles (one also with numbering, a footnote reference and a header). Every ToBytes/reopen inside a history and one more save at every distinct state is read with the independent reader and judged: each w:pStyle/w:rStyle/w:tblStyle value in the main, header, footer and notes parts is a w:styleId of the matching w:type in the styles part; each non-zero w:numId has a w:num whose w:abstractNumId has a w:abstractNum; each w:footnoteReference/w:endnoteReference id and each note marker the library writes ('[n]' / '[尾注n]') is a note id of the notes part; each style put into or changed in the current Document's registry through CreateCustomStyle/AddStyle/CreateQuickStyle or by editing the object GetStyle returns (custom X, predefined Heading1) (and not removed) is in the saved styles part with the registry's type, name, basedOn and bold. Caller-invented ids are excluded: SetStyle/ApplyTableStyle(StyleID) only get ids of the right type that are in the registry at call time, RemoveStyle only removes a style no element made by the harness uses. non-trivial = an operation that added a reference or a definition, saved or reopened (errors are not)"
 	r.Bounds["depth_after_seed"] = depth
 	r.Bounds["seeds"] = c13NSeeds
 	r.Bounds["alphabet_without_seeds"] = len(c13Ops) - c13NSeeds
